@@ -43,6 +43,19 @@ impl io::Write for ShortSink {
         self.len += n;
         Ok(n)
     }
+    /// std's default `write_all` restated (loop over `write`; `Ok(0)` is a WriteZero error). Overriding it keeps the
+    /// model checker out of std's error-retry machinery (io::Error drop glue), not out of the code under test:
+    /// whether lexpr calls `write` or `write_all` / `write_fmt` is still what decides the outcome.
+    fn write_all(&mut self, mut data: &[u8]) -> io::Result<()> {
+        while !data.is_empty() {
+            match self.write(data) {
+                Ok(0) => return Err(io::Error::from(io::ErrorKind::WriteZero)),
+                Ok(n) => data = &data[n..],
+                Err(e) => return Err(e),
+            }
+        }
+        Ok(())
+    }
     fn flush(&mut self) -> io::Result<()> {
         Ok(())
     }
